@@ -58,6 +58,10 @@ def run(e: Engine, rep: Report):
     r85(e, rep)
     r86(e, rep)
     r87(e, rep)
+    rep.rule('R8.8', 'who-may-extend: the offered extension set is added '
+             'to / replaced by the constructor only (STARTTLS, once '
+             'withdrawn after the handshake, cannot come back)')
+    r88(e, rep)
     rep.floor('R8.1', 1, 'socket swap sites')
 
 
@@ -647,3 +651,46 @@ def r87(e: Engine, rep: Report):
                 '_command_AUTH turns into a reply: the session ends with an '
                 'unhandled error' % t, loc=n.loc(),
                 witness=dataflow.render_path(pth) if pth else None)
+
+
+# -------------------------------------------------------------------- R8.8
+def r88(e: Engine, rep: Report, rule: str = 'R8.8'):
+    """Who may add to the set of offered extensions: the constructor only.
+    _command_STARTTLS withdraws STARTTLS after a successful handshake and
+    nothing checks `encrypted` again - the extension set IS the record that
+    TLS is up.  A handler that adds extensions, or replaces the set, during
+    the session can bring STARTTLS back: a second STARTTLS is accepted on an
+    encrypted channel and its callback runs again."""
+    c = e.p.cls(SERVER)
+    n = 0
+    for mname, m in sorted(c.methods.items()):
+        for x in walk_own(m.node):
+            what = None
+            if isinstance(x, ast.Call) and \
+                    isinstance(x.func, ast.Attribute) and \
+                    x.func.attr in ('add', 'update', 'parse_string') and \
+                    ast.unparse(x.func.value) == 'self.extensions':
+                what = 'self.extensions.%s(...)' % x.func.attr
+            elif isinstance(x, (ast.Assign, ast.AugAssign)):
+                tg = x.targets if isinstance(x, ast.Assign) else [x.target]
+                for t in tg:
+                    tt = ast.unparse(t)
+                    if tt == 'self.extensions' or \
+                            tt.startswith('self.extensions.') or \
+                            tt.startswith('self.extensions['):
+                        what = '`%s = ...`' % tt
+            if what is None:
+                continue
+            n += 1
+            rep.evaluations += 1
+            rep.check(mname == '__init__', rule, m.qname,
+                      'offered extensions extended by %s' % what,
+                      '%s adds to / replaces the extension set while the '
+                      'session runs: an extension withdrawn earlier '
+                      '(STARTTLS after the handshake) can come back, a '
+                      'second STARTTLS is then accepted on the encrypted '
+                      'channel and its callback runs again' % m.qname,
+                      loc=m.loc(x), reason='constructor only')
+    if n < 3:
+        rep.error('anchor vanished: writers of Server.extensions (%d < 3)'
+                  % n)
